@@ -68,8 +68,9 @@ func (rr *recReader) Read(p []byte) (int, error) {
 			p[i] = byte(rr.r.U64())
 		}
 	}
-	// the id generator draws exactly 12 bytes per id; websocket keys (16) and masks (4) are not ids
-	if rr.rec && len(p) == 12 {
+	// the id generator draws 12 bytes per id (anything from 8 to 15 is taken to be an id draw, so a
+	// changed layout shows up in the rows); websocket keys (16) and masks (4) are not ids
+	if rr.rec && len(p) >= 8 && len(p) < 16 {
 		rr.log = append(rr.log, append([]byte{}, p...))
 	}
 	return len(p), nil
@@ -658,6 +659,9 @@ func matrixMain(seed uint64, thorough bool, out *vk.Out) error {
 		if sp.WsUp && k%3 != 0 {
 			continue
 		}
+		if !thorough && !sp.WsUp && k%2 == 1 { // quick tier: every other request of the matrix (all answers are 503)
+			continue
+		}
 		sp.SID = mkSid(sp.SIDKind, k)
 		if err := put("closed", sp); err != nil {
 			return err
@@ -686,7 +690,7 @@ func idsMain(seed uint64, n int, rmode string, start uint32, out *vk.Out) error 
 		}
 		l := rr.take()
 		if len(l) != 1 {
-			return fmt.Errorf("id generator drew %d 12-byte blocks for one id", len(l))
+			return fmt.Errorf("id generator drew %d blocks of random bytes for one id", len(l))
 		}
 		if _, ok := seen[id]; ok {
 			dups++
